@@ -24,6 +24,7 @@ type c15Case struct {
 	lsw.Case
 	Pick []int `json:"pick"` // selects which targets are evaluated
 	CLI  bool  `json:"cli"`  // go through CalcRestoreTarget first, as cmd/litestream/restore.go does
+	Lag  bool  `json:"lag,omitempty"` // the history ends with locally copied transactions and a snapshot: level 0 on the replica lags
 }
 
 func genC15(t *rapid.T) c15Case {
@@ -34,6 +35,16 @@ func genC15(t *rapid.T) c15Case {
 		if c.Ops[i].K == "syncwait" && rapid.IntRange(0, 3).Draw(t, "queuedSnapshot") == 0 {
 			c.Ops[i].X = []lsw.Op{{K: "at", M: rapid.SampledFrom([]string{"verify", "sync_page_map", "sync_prepare_ltx"}).Draw(t, "phase"), N: 1, X: []lsw.Op{{K: "bg", M: "snapshot"}}}}
 		}
+	}
+	// one history in three ends while level 0 on the replica lags: transactions copied locally (DB.Sync only) and then a
+	// snapshot, which is uploaded at the local position. The newest file on the replica is then a snapshot that is younger
+	// than the newest level-0 file, and instants between the two must still restore to a state from before them.
+	if rapid.IntRange(0, 2).Draw(t, "level0Lags") == 0 {
+		for k := rapid.IntRange(1, 2).Draw(t, "lagRounds"); k > 0; k-- {
+			c.Ops = append(c.Ops, lsw.Op{K: "sleep", N: 3}, lsw.Op{K: "insert", T: 0, N: rapid.IntRange(1, 5).Draw(t, "lagRows"), S: 1}, lsw.Op{K: "sync"})
+		}
+		c.Ops = append(c.Ops, lsw.Op{K: "sleep", N: 3}, lsw.Op{K: "snapshot"})
+		c.Lag = true
 	}
 	c.Pick = rapid.SliceOfN(rapid.IntRange(0, 1<<20), 14, 14).Draw(t, "pick")
 	c.CLI = rapid.IntRange(0, 3).Draw(t, "cli") == 0
@@ -142,6 +153,23 @@ func execC15(c c15Case) (res core.Result) {
 	chosen := map[int64]bool{}
 	for _, p := range c.Pick {
 		chosen[cands[p%len(cands)]] = true
+	}
+	if c.Lag {
+		// instants around the replication times of the transactions that reached the replica only inside the snapshot
+		var maxL0 ltx.TXID
+		for n := range l0present {
+			if n > maxL0 {
+				maxL0 = n
+			}
+		}
+		if maxL0 > 0 && maxL0 < maxTX {
+			res.Labels = append(res.Labels, "level0-lags-behind-snapshot")
+			chosen[ts[maxL0]+1] = true
+			for n := maxL0 + 1; n <= maxTX; n++ {
+				chosen[ts[n]-1] = true
+				chosen[ts[n]] = true
+			}
+		}
 	}
 	var targets []int64
 	for t := range chosen {
